@@ -279,7 +279,13 @@ func runC04(c *Ctx) {
 			if st.stream == "params" && cl.andx && len(dec) > 0 && dec[0].Kind == "nested" && dec[0].Field == "AndX" {
 				dec = dec[1:]
 			}
-			compareLayouts(c, "sym", key, pos, st.enc, dec)
+			enc := st.enc
+			if st.stream == "params" && cl.andx && len(enc) > 0 && enc[0].Kind == "nested" && strings.Contains(enc[0].Type, "AndX") && !enc[0].Cond {
+				// the AndX block written as the first bytes of the parameter stream (AndX.Marshal())
+				// instead of through AddWord: the same four bytes either way
+				enc = enc[1:]
+			}
+			compareLayouts(c, "sym", key, pos, enc, dec)
 			checkContig(c, key, pos, st.dec, 0)
 			// window: a nested decoder handed a fixed window must be handed at least what it consumes
 			for _, a := range flatten(st.dec) {
